@@ -383,6 +383,40 @@ static void stage_puny(int sh, int ns, bool T) {
     judge_puny_enc(s);
     U32 s2(h, U'a'); s2.push_back(0x10FFFF); s2.push_back(0x80);
     judge_puny_enc(s2);
+    // the same guards with delta already non-zero / with two large code points / just below the top
+    U32 s3(h, U'a'); s3.push_back(0x10FFFF); s3.push_back(0x10FFFF);
+    judge_puny_enc(s3);
+    U32 s4(h, U'a'); s4.push_back(0xFFFF); s4.push_back(0x10FFFE);
+    judge_puny_enc(s4);
+    U32 s5; s5.push_back(0x10FFFF); s5 += U32(h, U'a');        // the "++delta, fail on overflow" guard: h code points below n
+    judge_puny_enc(s5);
+  }
+  // guard-boundary family of the decoder: a run of m maximal digits ('9' = 35) drives i and w up to the edge of the
+  // 31/32-bit range, then EVERY digit value (and every pair of digit values) follows, so each of the three overflow
+  // guards ("i + digit*w", "w * (base - t)", "n + i div (len+1)") is met from both sides whatever digit it takes.
+  // Each string is judged as direct decoder input (punycode_to_utf32 and verify_punycode against each other and against
+  // RFC 3492 incl. its overflow failure), alone and after the basic prefixes "a-" / "ab-", and as an xn-- label through
+  // to_unicode and through to_ascii next to a non-ASCII label.
+  {
+    const std::string digs = "abcdefghijklmnopqrstuvwxyz0123456789";
+    auto one = [&](const std::string& body) {
+      for (const char* pre : {"", "a-", "ab-"}) {
+        if (int(ord++ % ns) != sh) continue;
+        std::string str = std::string(pre) + body;
+        judge_puny_dec(str);
+        U32 ace = U"xn--"; for (char c : str) ace.push_back((unsigned char)c);
+        judge_to_unicode(u8(ace), "puny-guard");
+        judge_to_ascii(ace + U32{U'.', 0x00E9}, "puny-guard");
+        R.counters["punycode_guard_family"]++;
+      }
+    };
+    for (int m = 0; m <= 8; m++) {
+      if (out_of_time()) return;
+      for (char d1 : digs) {
+        one(std::string(m, '9') + d1);
+        for (char d2 : digs) one(std::string(m, '9') + d1 + d2);
+      }
+    }
   }
   for (int n = 1; n <= 18; n++)
     for (char c : std::string("9z0b"))
